@@ -23,7 +23,8 @@ RULE = (
 REQUIRED = ["faithful_checked/generic", "faithful_checked/wl", "faithful_checked/morgan", "faithful_checked/nauty",
             "nauty_permutations_checked", "signature_repeat_checked", "soundness_groups_checked",
             "soundness_pairs_isomorphism_checked", "symmetric_graphs_checked", "value_objects_checked",
-            "synrule_checked", "synrule_from_gml_checked", "tuple_order_graphs_checked", "nauty_distinct_classes_separated"]
+            "synrule_checked", "synrule_from_gml_checked", "tuple_order_graphs_checked", "nauty_distinct_classes_separated",
+            "presentations_with_other_numeric_types", "synrule_same_sides_other_mapping_checked", "two_order_complete_graphs_checked", "cross_process_probes"]
 ASSUMPTIONS = [
     "covered attributes: element, charge, aromatic, hcount on nodes; order, standard_order on edges (the default keys)",
     "standard_order is a function of order in every generated graph (as in ITS graphs); independent variation is outside the data model",
@@ -115,6 +116,16 @@ def check_graph(ctx, G, tag, key, groups, perms=None, light=False):
         H = WG.permuted(G, list(pm))
         if rng.random() < 0.5:
             H, _ = WG.scramble(H, rng, ids=list(H.nodes))  # same ids, shuffled insertion / orientation
+        if rng.random() < 0.35:
+            # equal labels written with another numeric type (GML-read graphs carry int orders, RDKit-derived ones floats)
+            for _, _, d_ in H.edges(data=True):
+                o_ = d_.get("order")
+                if isinstance(o_, (int, float)) and not isinstance(o_, bool) and float(o_).is_integer():
+                    d_["order"] = int(o_) if isinstance(o_, float) else float(o_)
+            for _, d_ in H.nodes(data=True):
+                if isinstance(d_.get("charge"), int) and rng.random() < 0.5:
+                    d_["charge"] = float(d_["charge"])
+            ctx.count("presentations_with_other_numeric_types")
         ctx.count("nauty_permutations_checked")
         got = covered(c.make_canonical_graph(H))
         if got != ref_graph:
